@@ -7,9 +7,14 @@ From AV Require Import Base Machine ChainSpec ChainGen.
 
 (* case analysis on the flags of the head scope; insensitive to the order in which the source tests them *)
 Ltac flags a :=
-  destruct (r_cancelled a) eqn:?, (r_shield a) eqn:?, (r_chandle a) eqn:?; cbn [negb andb orb]; auto.
+  unfold gen_visible_parent_stops, stops;
+  destruct (r_cancelled a) eqn:?, (r_shield a) eqn:?, (r_chandle a) eqn:?, (r_hosted a) eqn:?; cbn [negb andb orb]; auto.
 
 (* ---------------- (i) generated = spec ---------------- *)
+(* the property added by the F42 fix: `_visible_parent_scope is None` iff shielded or exited *)
+Theorem visible_parent_gen_eq x : gen_visible_parent_stops x = stops x.
+Proof. flags x. Qed.
+
 Theorem eff_cancelled_gen_eq l : gen_effectively_cancelled l = eff_cancelled_spec l.
 Proof.
   unfold gen_effectively_cancelled.
@@ -35,7 +40,7 @@ Qed.
 Theorem check_cancelled_gen_eq l : gen_check_cancelled_raises l = check_cancelled_raises_spec l.
 Proof.
   unfold gen_check_cancelled_raises, check_cancelled_raises_spec.
-  induction l as [|a l IH]; cbn [gen_check_cancelled_raises_from eff_cancelled_spec]; [reflexivity|].
+  induction l as [|a l IH]; cbn [gen_check_cancelled_raises_from sh_cancelled_spec]; [reflexivity|].
   rewrite IH. flags a.
 Qed.
 
@@ -43,8 +48,9 @@ Lemma eff_deadline_gen_from_eq l : forall acc, gen_eff_deadline_from l acc = eff
 Proof.
   induction l as [|a l IH]; intros acc; unfold eff_deadline_acc;
     cbn [gen_eff_deadline_from eff_cancelled_spec visible]; [reflexivity|].
-  rewrite IH. unfold eff_deadline_acc.
-  destruct (r_cancelled a) eqn:Ec, (r_shield a) eqn:Es; cbn [negb andb orb min_deadline fold_left]; auto.
+  rewrite IH. unfold eff_deadline_acc, gen_visible_parent_stops, stops.
+  destruct (r_cancelled a) eqn:Ec, (r_shield a) eqn:Es, (r_hosted a) eqn:Eh;
+    cbn [negb andb orb min_deadline fold_left]; auto.
 Qed.
 
 Theorem effective_deadline_gen_eq l : gen_eff_deadline l = eff_deadline_spec l.
@@ -76,35 +82,53 @@ Proof.
 Qed.
 
 (* ---------------- (ii) machine = spec through chain_of ---------------- *)
+(* The machine's walks stop at shields only (Machine.v is the model of the generated domain, in which every scope a
+   walk visits is still entered); they equal the specs on chains whose scopes are all hosted.  ChainReach.v shows
+   that this is the case for every walk from an active scope in every reachable state of the domain. *)
+Lemma rec_of_stops c : r_hosted (rec_of c) = true -> stops (rec_of c) = s_shield c.
+Proof. intros H. now rewrite (stops_hosted _ H). Qed.
+
 Theorem machine_eff_cancelled_from_eq fuel s : forall x,
-  eff_cancelled_from fuel s x = eff_cancelled_spec (chain_of fuel s x).
+  all_hosted (chain_of fuel s x) -> eff_cancelled_from fuel s x = eff_cancelled_spec (chain_of fuel s x).
+Proof.
+  induction fuel as [|fu IH]; intros x H; [destruct x; reflexivity|].
+  destruct x as [c|]; cbn [eff_cancelled_from chain_of eff_cancelled_spec] in *; [|reflexivity].
+  inversion H as [|? ? Hc Hr]; subst. rewrite (IH _ Hr), (rec_of_stops _ Hc). unfold rec_of; cbn [r_cancelled].
+  destruct (s_cancelled (scopes s c)), (s_shield (scopes s c)); reflexivity.
+Qed.
+
+(* unconditionally, the machine's walk is the shield-only walk (the code's walk before the F42 fix) *)
+Theorem machine_eff_cancelled_from_sh fuel s : forall x,
+  eff_cancelled_from fuel s x = sh_cancelled_spec (chain_of fuel s x).
 Proof.
   induction fuel as [|fu IH]; intros x; [destruct x; reflexivity|].
-  destruct x as [c|]; cbn [eff_cancelled_from chain_of eff_cancelled_spec]; [|reflexivity].
+  destruct x as [c|]; cbn [eff_cancelled_from chain_of sh_cancelled_spec]; [|reflexivity].
   rewrite IH. unfold rec_of; cbn [r_cancelled r_shield].
   destruct (s_cancelled (scopes s c)), (s_shield (scopes s c)); reflexivity.
 Qed.
 
 Corollary machine_eff_cancelled_eq s c :
+  all_hosted (chain_of (nscope s) s (Some c)) ->
   eff_cancelled s c = gen_effectively_cancelled (chain_of (nscope s) s (Some c)).
-Proof. unfold eff_cancelled. now rewrite machine_eff_cancelled_from_eq, eff_cancelled_gen_eq. Qed.
+Proof. intros H. unfold eff_cancelled. now rewrite machine_eff_cancelled_from_eq, eff_cancelled_gen_eq. Qed.
 
 Theorem machine_ckif_spins_eq fuel s : forall x,
-  ckif_spins fuel s x = ckif_spins_spec (chain_of fuel s x).
+  all_hosted (chain_of fuel s x) -> ckif_spins fuel s x = ckif_spins_spec (chain_of fuel s x).
 Proof.
   unfold ckif_spins_spec.
-  induction fuel as [|fu IH]; intros x; [destruct x; reflexivity|].
-  destruct x as [c|]; cbn [ckif_spins chain_of eff_cancelled_spec]; [|reflexivity].
-  rewrite IH. unfold rec_of; cbn [r_cancelled r_shield].
+  induction fuel as [|fu IH]; intros x H; [destruct x; reflexivity|].
+  destruct x as [c|]; cbn [ckif_spins chain_of eff_cancelled_spec] in *; [|reflexivity].
+  inversion H as [|? ? Hc Hr]; subst. rewrite (IH _ Hr), (rec_of_stops _ Hc). unfold rec_of; cbn [r_cancelled].
   destruct (s_cancelled (scopes s c)), (s_shield (scopes s c)); reflexivity.
 Qed.
 
 Theorem machine_parent_visible_eq s c :
+  all_hosted (chain_of (S (nscope s)) s (Some c)) ->
   parent_visible s c = parent_visible_spec (chain_of (S (nscope s)) s (Some c)).
 Proof.
-  unfold parent_visible, eff_cancelled. cbn [chain_of].
+  intros H. unfold parent_visible, eff_cancelled. cbn [chain_of] in *. inversion H as [|? ? Hc Hr]; subst.
   destruct (s_parent (scopes s c)) as [p|] eqn:Ep.
-  - rewrite machine_eff_cancelled_from_eq.
+  - rewrite (machine_eff_cancelled_from_eq _ _ _ Hr).
     destruct (nscope s) as [|n]; cbn [chain_of parent_visible_spec eff_cancelled_spec].
     + now rewrite andb_false_r.
     + unfold rec_of at 1; cbn [r_shield]. reflexivity.
@@ -112,25 +136,26 @@ Proof.
 Qed.
 
 Lemma machine_eff_deadline_from_eq fuel s : forall x acc,
+  all_hosted (chain_of fuel s x) ->
   eff_deadline_from fuel s x acc = eff_deadline_acc (chain_of fuel s x) acc \/
   (acc = XNegInf /\ eff_deadline_from fuel s x acc = XNegInf).
 Proof.
-  induction fuel as [|fu IH]; intros x acc; [left; destruct x; reflexivity|].
+  induction fuel as [|fu IH]; intros x acc H; [left; destruct x; reflexivity|].
   destruct x as [c|]; [|left; reflexivity].
-  cbn [eff_deadline_from chain_of]. unfold eff_deadline_acc.
-  cbn [eff_cancelled_spec visible]. unfold rec_of at 1 2 3; cbn [r_cancelled r_shield r_deadline].
+  cbn [eff_deadline_from chain_of] in *. inversion H as [|? ? Hc Hr]; subst. unfold eff_deadline_acc.
+  cbn [eff_cancelled_spec visible]. rewrite (rec_of_stops _ Hc). unfold rec_of at 1 2; cbn [r_cancelled r_deadline].
   destruct (s_cancelled (scopes s c)) eqn:Ec; cbn [orb]; [now left|].
   destruct (s_shield (scopes s c)) eqn:Es; cbn [negb andb min_deadline fold_left]; [now left|].
-  destruct (IH (s_parent (scopes s c)) (xmin acc (s_deadline (scopes s c)))) as [H|[H1 H2]].
-  - left. rewrite H. unfold eff_deadline_acc. unfold rec_of at 1; cbn [r_deadline]. reflexivity.
+  destruct (IH (s_parent (scopes s c)) (xmin acc (s_deadline (scopes s c))) Hr) as [H0|[H1 H2]].
+  - left. rewrite H0. unfold eff_deadline_acc. unfold rec_of at 1; cbn [r_deadline]. reflexivity.
   - left. rewrite H2. unfold rec_of at 1; cbn [r_deadline]. rewrite H1.
     destruct (eff_cancelled_spec _); [reflexivity|]. now rewrite min_deadline_neginf.
 Qed.
 
 Theorem machine_eff_deadline_eq fuel s x :
-  eff_deadline_from fuel s x XInf = eff_deadline_spec (chain_of fuel s x).
+  all_hosted (chain_of fuel s x) -> eff_deadline_from fuel s x XInf = eff_deadline_spec (chain_of fuel s x).
 Proof.
-  destruct (machine_eff_deadline_from_eq fuel s x XInf) as [H|[H _]]; [exact H|discriminate].
+  intros H. destruct (machine_eff_deadline_from_eq fuel s x XInf H) as [H0|[H0 _]]; [exact H0|discriminate].
 Qed.
 
 (* the target of _restart_cancellation as a function of the machine state *)
@@ -179,15 +204,17 @@ Qed.
 
 (* transfer: machine predicates evaluated by the GENERATED code *)
 Corollary machine_parent_visible_gen s c :
+  all_hosted (chain_of (S (nscope s)) s (Some c)) ->
   parent_visible s c = gen_parent_visible (chain_of (S (nscope s)) s (Some c)).
-Proof. now rewrite machine_parent_visible_eq, parent_visible_gen_eq. Qed.
+Proof. intros H. now rewrite machine_parent_visible_eq, parent_visible_gen_eq. Qed.
 
-Corollary machine_ckif_spins_gen fuel s x : ckif_spins fuel s x = gen_ckif_spins (chain_of fuel s x).
-Proof. now rewrite machine_ckif_spins_eq, ckif_spins_gen_eq. Qed.
+Corollary machine_ckif_spins_gen fuel s x :
+  all_hosted (chain_of fuel s x) -> ckif_spins fuel s x = gen_ckif_spins (chain_of fuel s x).
+Proof. intros H. now rewrite machine_ckif_spins_eq, ckif_spins_gen_eq. Qed.
 
 Corollary machine_eff_deadline_gen fuel s x :
-  eff_deadline_from fuel s x XInf = gen_eff_deadline (chain_of fuel s x).
-Proof. now rewrite machine_eff_deadline_eq, effective_deadline_gen_eq. Qed.
+  all_hosted (chain_of fuel s x) -> eff_deadline_from fuel s x XInf = gen_eff_deadline (chain_of fuel s x).
+Proof. intros H. now rewrite machine_eff_deadline_eq, effective_deadline_gen_eq. Qed.
 
 Corollary machine_restart_from_gen fuel s x :
   restart_from fuel s x =
